@@ -24,7 +24,13 @@ RULE = ("every mask of every shape with H*W <= 4 (quick) / <= 6 (thorough) x {ma
         "with the caller's arrays fingerprinted after every read; inversion histories (the same linear objects, settings and "
         "preloads objects reused by several inversions, re-reads, fingerprints).  DERIVED inputs: datasets from apply_mask / "
         "trimmed_after_convolution_from, arrays from arithmetic, views, copies, .native / .slim round trips.  EXTREMES: common "
-        "power-of-two scales 2^-40..2^40 of data / noise / regularization, exact zero residuals, zero data, constant images. "
+        "power-of-two scales 2^-40..2^40 of data / noise / regularization, exact zero residuals, zero data, constant images.  "
+        "NOISE COVARIANCE: slim fits on datasets with a dyadic positive definite covariance matrix (given directly or reduced by "
+        "apply_mask; diagonal = noise^2 now and then), two fits per dataset, and direct calls of "
+        "chi_squared_with_noise_covariance_from.  INTERFEROMETER: FitInterferometer on real Interferometer datasets of 1-6 "
+        "visibilities (both use_mask_in_fit settings, with / without inversion), read, in-place edits, re-read, second fit object; "
+        "the complex fit_util functions on ndarrays.  Inversions with a Preloads object carrying the true regularization matrix / "
+        "log-determinant. "
         "A case is non-trivial unless it is a bare composition call; distinct = distinct JSON input.")
 EXHAUSTIVE = {
     "quick": "all masks of all shapes with H*W <= 4 x 2 modes x 2 sky settings x inversion kinds (4 kinds for H*W <= 3; none / "
@@ -33,8 +39,8 @@ EXHAUSTIVE = {
                 "none / partially regularized for H*W in {5, 6}); all object structures (params in {1,2}, regularized or not) "
                 "of length <= 4",
 }
-TRUSTED = ["Gallina model coq/Model/C08.v of fit_util.py / fit_dataset.py / fit_imaging.py / the evidence terms of "
-           "inversion/abstract.py, hand-written and tied to /repo by this correspondence run; only the three composition formulas "
+TRUSTED = ["Gallina models coq/Model/C08.v, C08x.v of fit_util.py / fit_dataset.py / fit_imaging.py / fit_interferometer.py / the "
+           "evidence terms of inversion/abstract.py, hand-written and tied to /repo by this correspondence run; only the three composition formulas "
            "(log_likelihood_from, log_likelihood_with_regularization_from, log_evidence_from) are regenerated from fit_util.py by "
            "py2v/gen_fit.py (fail-closed) into coq/Gen/Gen_fit.v on every run",
            "correspondence harness harness/c08.py; native 2-D arrays are passed to the model flattened row-major; the model's "
@@ -42,11 +48,17 @@ TRUSTED = ["Gallina model coq/Model/C08.v of fit_util.py / fit_dataset.py / fit_
            "QOps execution device: finite ln table supplied per case (ln of 2*pi*noise^2 and of the two determinants, "
            "computed with math.log); ln-dependent outputs are compared under 1e-9 relative tolerance inside Coq and again in "
            "Python against math.log; never used in a theorem",
-           "oracles: numpy.linalg.cholesky / scipy splu log-determinants = ln det (model: lnT (det M)); numpy element-wise "
-           "arithmetic, np.sum, boolean-mask selection, np.delete, scipy block_diag"]
+           "oracles: numpy.linalg.cholesky / scipy splu log-determinants = ln det (model: lnT (det M)); np.linalg.inv returns an "
+           "inverse (the returned matrix is part of the case; C_inv . C = I is checked within 1e-9 inside Coq, chi-squared again in "
+           "Python against the exact rational solution of C x = r); numpy element-wise arithmetic, np.sum, boolean-mask selection, "
+           "np.delete, scipy block_diag, @ on 1-D / 2-D arrays",
+           "IEEE signed zeros are not modelled: a pixel with a -0.0 noise value (derived arrays only) is unobserved for the sign of "
+           "an infinite signal-to-noise value"]
 ASSUMPTIONS = ["theorems are over the reals (any function in the ln slot); floating-point rounding is not modelled: inputs are "
                "dyadic so that every compared double operation except ln, x/3-style divisions is exact",
-               "noise is positive on fitted pixels (the property's quantifier); masked pixels carry arbitrary finite values"]
+               "noise is positive on fitted pixels (the property's quantifier); masked pixels carry arbitrary finite values",
+               "noise covariance: slim storage, at least one fitted pixel, symmetric positive definite dyadic matrices; the "
+               "covariance matrix and an inversion's inputs are not edited after a read (cached_property by design)"]
 
 # ----------------------------------------------------------------------------- numbers
 TWO_PI = 2 * np.pi
@@ -252,8 +264,11 @@ def gen_hist(rng):
     twin = {"data": [(rng.choice(G_DATA[1:]) if (bits[i] and native) else rnd_val(rng)) for i in range(n)],
             "noise": [(rng.choice(G_NOISE) if (bits[i] and native) else rng.choice(NOISE)) for i in range(n)]}
     order = READS[:]; rng.shuffle(order)
+    # the user also changes the background sky level of the (shared) DatasetModel object between two reads
+    sky_edit = rng.choice([None, None] + SKIES + [0.0]) if base["via"] == "imaging" else None
+    if sky_edit: base["data"] = [(-4096.0 if abs(x) > 1e20 else x) for x in base["data"]]
     return {"op": "hist", "base": base, "edits": edits, "maskflip": maskflip, "model2": model2, "sky2": sky2,
-            "twin": twin, "order": order}
+            "twin": twin, "order": order, "sky_edit": sky_edit}
 
 def gen_invhist(rng):
     k = rng.randint(1, 3)
@@ -327,29 +342,30 @@ def gen_inputs(tier, rng):
                         via = vias[i % 3] if sky == 0.0 else "imaging"
                         s = 0.0 if sky == 0.0 else rng.choice(SKIES)
                         yield gen_fit(rng, h, w, bits, mode, s, invkind, via)
-    for _ in range(2000 if big else 100):
+    for _ in range(1200 if big else 100):
         yield rnd_fit(rng, vias, geom=rng.randint(0, 3))
     # ---- histories on one dataset / one fit object; inversion histories
-    for _ in range(1000 if big else 80): yield gen_hist(rng)
-    for _ in range(400 if big else 30): yield gen_invhist(rng)
+    for _ in range(600 if big else 80): yield gen_hist(rng)
+    for _ in range(200 if big else 30): yield gen_invhist(rng)
     # ---- derived datasets / arrays
-    for _ in range(1500 if big else 100):
+    for _ in range(800 if big else 100):
         mode = rng.choice(["native", "slim", "slim", "native_nomask"])
         yield rnd_fit(rng, vias, mode=mode, route=rng.choice(ROUTES[mode][1:]), geom=rng.randint(0, 3))
     # ---- extremes: common power-of-two scales, exact zeros / ties / constant images
-    for _ in range(1200 if big else 80):
+    for _ in range(600 if big else 80):
         yield rnd_fit(rng, vias, scale=(rng.choice([-40, -27, -9, 0, 13, 40]), rng.choice(NOISE_SCALES)),
                       special=rng.choice([None, None, "zero_residual", "zero_data", "constant"]), geom=rng.randint(0, 3))
     for st in structures(4 if big else 3):
         for _ in range(3 if big else 2):
             yield {"op": "inv", "inv": gen_inv(rng, None, st), "junk": bool(rng.randint(0, 1))}
-    for _ in range(1500 if big else 80):
-        yield {"op": "inv", "inv": gen_inv(rng, rng.choice(["all", "partial", "partial", "none"])), "junk": bool(rng.randint(0, 1))}
-    for _ in range(600 if big else 40):
+    for _ in range(1000 if big else 80):
+        yield {"op": "inv", "inv": gen_inv(rng, rng.choice(["all", "partial", "partial", "none"])), "junk": bool(rng.randint(0, 1)),
+               "preload": rng.random() < 0.3}
+    for _ in range(300 if big else 40):
         e = rng.choice([-40, -20, 0, 20, 40])
         yield {"op": "inv", "inv": gen_inv(rng, rng.choice(["all", "partial", "partial"]),
                                            scales=(e + rng.choice([-30, -8, 0]), e, rng.choice([-40, -7, 0, 9, 40]))), "junk": False}
-    for _ in range(1500 if big else 120):
+    for _ in range(1000 if big else 120):
         two_d = rng.random() < 0.5
         h, w = (rng.randint(1, 4), rng.randint(1, 4)) if two_d else (1, rng.randint(1, 9))
         n = h * w
@@ -360,17 +376,17 @@ def gen_inputs(tier, rng):
                "noise": [rng.choice(NOISE) for _ in range(n)], "model": [rnd_val(rng) * 2.0 ** e for _ in range(n)],
                "wrap": bool(two_d and rng.random() < 0.4)}
     # ---- noise covariance, interferometer (complex) fits, the complex / covariance fit_util functions on ndarrays
-    for _ in range(600 if big else 60): yield gen_cov(rng)
-    for _ in range(600 if big else 60): yield gen_vis(rng)
-    for _ in range(400 if big else 40):
+    for _ in range(300 if big else 50): yield gen_cov(rng)
+    for _ in range(300 if big else 50): yield gen_vis(rng)
+    for _ in range(200 if big else 40):
         n = rng.randint(0, 6); e = rng.choice([0, 0, -40, 40])
         yield {"op": "utilc", "r": [[rnd_val(rng) * 2.0 ** e, rnd_val(rng) * 2.0 ** e] for _ in range(n)],
                "n": [[rng.choice(NOISE), rng.choice(NOISE)] for _ in range(n)]}
-    for _ in range(400 if big else 40):
+    for _ in range(200 if big else 40):
         n = rng.randint(1, 5); e = rng.choice([0, 0, -40, 40])
         yield {"op": "utilcov", "r": [rnd_val(rng) * 2.0 ** e for _ in range(n)],
                "Ci": [[rng.randint(-8, 8) / 4.0 for _ in range(n)] for _ in range(n)]}
-    for _ in range(300 if big else 40):
+    for _ in range(200 if big else 40):
         yield {"op": "compose", "a": [rng.randint(-4000, 4000) / 16.0 for _ in range(5)]}
 
 # ----------------------------------------------------------------------------- implementation side
@@ -688,7 +704,10 @@ def run_hist(inp):
     if inp["maskflip"] is not None:
         y, x = inp["maskflip"] // shape[1], inp["maskflip"] % shape[1]
         ds.mask[y, x] = not bool(ds.mask[y, x])
-    o2 = step("read after in-place edits", fit1, env["model"], base["sky"], inp["order"])
+    sky1 = base["sky"]
+    if inp.get("sky_edit") is not None:
+        fit1.dataset_model.background_sky_level = inp["sky_edit"]; sky1 = inp["sky_edit"]
+    o2 = step("read after in-place edits", fit1, env["model"], sky1, inp["order"])
     # ---- a second fit object on the same dataset
     c = classes(); aa = c["aa"]
     maskarr = np.array(np.asarray(ds.mask), dtype=bool)
@@ -755,10 +774,21 @@ def read_inv(inv, iv):
         py_ok = False; detail.append("reading the inversion modified the caller's reconstruction / regularization matrices in place")
     return coq, py_ok, detail, o
 
+def consistent_preloads(iv):
+    """a Preloads object carrying the TRUE regularization matrix and the true log-determinant of its restriction:
+    the inversion must then return what it returns without preloads"""
+    c = classes()
+    reg, dfh, dh, H, FH = inv_tables(iv)
+    kw = {"regularization_matrix": np.array([[float(x) for x in r] for r in H], dtype=float).reshape((len(H), len(H)))}
+    if reg and dh > 0: kw["log_det_regularization_matrix_term"] = flog(dh)
+    return c["Preloads"](**kw)
+
 def run_inv(inp):
     iv = inp["inv"]
-    coq, py_ok, detail, o = read_inv(make_inv(iv), iv)
-    return {"coq": coq, "out": o, "py_ok": py_ok, "nontrivial": True, "detail": "; ".join(detail) or None, "kind": "inv/" + inv_kind(iv)}
+    pre = consistent_preloads(iv) if inp.get("preload") and iv["s"] else None
+    coq, py_ok, detail, o = read_inv(make_inv(iv, preloads=pre), iv)
+    return {"coq": coq, "out": o, "py_ok": py_ok, "nontrivial": True, "detail": "; ".join(detail) or None,
+            "kind": "inv/" + inv_kind(iv) + ("/preloads" if pre is not None else "")}
 
 def run_invhist(inp):
     """several inversions that share the linear objects (and their regularization objects), the settings and the preloads
